@@ -10,16 +10,17 @@ ACTIONS = ("Validate", "AskMode", "AskOnb", "Echo", "Confirm", "GetPin", "GenSee
            "AskMode2", "GetNewPin", "SendNewPin", "ChangePin", "GetKeys", "WriteFiles")
 NEGATIVES = ("NeverOnboards", "NeverUnlocks", "NeverChanges", "NeverWritesKeys", "NeverAnyPin")
 TRACE_KEYS = ("id", "op", "plat", "any_pin", "no_unlock", "src", "pins", "upin", "outfile", "answers",
-              "d0", "acc", "prev_seed", "ev", "outcome", "files", "expect")
+              "d0", "acc", "prev_seed", "ev", "outcome", "files", "expect", "fin_pin")
 
 
 def pin_label(p):
     """Syntactic label of a PIN string for signatures / coverage only (no verdict depends on it)."""
     b = p.encode("utf-8", "surrogateescape")
     al = all(chr(c) in admin_ops.ALNUM for c in b)
-    return "len%s%d,%s,%s" % ("=" if len(b) == 8 else ("<" if len(b) < 8 else ">"), 8,
-                              "alnum" if al else "nonalnum",
-                              "letter" if any(chr(c) in admin_ops.LETTERS for c in b) else "noletter")
+    return "len%s%d,%s,%s%s" % ("=" if len(b) == 8 else ("<" if len(b) < 8 else ">"), 8,
+                                "alnum" if al else "nonalnum",
+                                "letter" if any(chr(c) in admin_ops.LETTERS for c in b) else "noletter",
+                                ",nonascii" if any(c > 127 for c in b) else "")
 
 
 RELEVANT = {
@@ -28,6 +29,7 @@ RELEVANT = {
     "changepin": ("plat", "src", "any_pin", "no_unlock", "mode", "onb", "echo", "unlock", "newpin"),
     "pubkeys": ("plat", "src", "any_pin", "no_unlock", "outfile", "mode", "onb", "echo", "unlock", "mode2",
                 "keys"),
+    "genpin": (),
 }
 
 
@@ -54,7 +56,7 @@ def random_scenario(rng):
         for _ in range(rng.choice([0, 1, 1, 2])):
             pins.append(admin_ops.random_pin(rng))
         if rng.random() < 0.6:
-            pins.append(admin_ops.pin_of_class("valid", rng))
+            pins.append(admin_ops.pin_of_class("ok", rng))
     # bias towards states in which the command gets far
     if op == "onboard":
         mode = rng.choice(["boot"] * 5 + list(admin_ops.MODES))
@@ -103,8 +105,12 @@ def run(ctx):
         "(any-PIN with a non-alphanumeric PIN, onboarding with a non-compliant PIN *option*)",
         "the attestation setup after a Ledger onboarding is simulated just well enough to finish "
         "(handshake, device key, endorsement key with simulator-made signatures); its content is not judged",
-        "inside a PIN class the check samples (boundary members first); bitcoin.core stand-in loaded "
-        "but not exercised",
+        "PIN content is an explicit environment choice (classes ok / digits / len7 / len9 / ascii / hi8 / "
+        "hiwide); every listed member of a class is run in the PIN-decisive behaviours (option, prompt, "
+        "command line), every character of U+0000..U+07FF is swept inside an otherwise compliant 8-byte "
+        "PIN, generated PINs are judged too; beyond that the PIN space is sampled. Ground truth = the "
+        "bytes the device received and the PIN it ends up holding. bitcoin.core stand-in loaded but not "
+        "exercised",
     ]
     # 1. design check, exhaustive
     r = tlc.check("Admin", "MC_Admin.cfg", coverage=True, workers=4)
@@ -131,55 +137,97 @@ def run(ctx):
     state = {"prev_seed": None, "seeds": [], "own_draw": 0}
     order = list(range(len(behaviours)))
     ctx.rng.shuffle(order)
-    drift, drift_samples = 0, []
+    drift = {"n": 0, "samples": []}
+
+    def record(sc, tag, src, b=None):
+        t, dg = execute(ctx, sc, tag, state)
+        t["id"] = len(traces) + 1
+        dg["src"] = src
+        if b is not None and (t["outcome"] != b["outcome"] or shape(dg["classes"]) != shape(b["hist"])):
+            drift["n"] += 1
+            if len(drift["samples"]) < 5:
+                drift["samples"].append({"cfg": b["cfg"], "env": b["env"], "src": src,
+                                         "pins": sc.desc["pins"], "model": [b["outcome"], b["hist"]],
+                                         "code": [t["outcome"], dg["classes"], dg["exc"]]})
+        traces.append(t)
+        diags[t["id"]] = dg
+        return t
+
+    # 3a. every behaviour once, one seeded member of its PIN content class
     for k, bi in enumerate(order):
         b = behaviours[bi]
         sc = admin_ops.scenario_from_model(b["cfg"], b["env"], ctx.rng, boundary=(k % 3 == 0))
-        t, dg = execute(ctx, sc, "b%d" % bi, state)
-        t["id"] = len(traces) + 1
-        dg["src"] = "model-behaviour"
-        if t["outcome"] != b["outcome"] or shape(dg["classes"]) != shape(b["hist"]):
-            drift += 1
-            if len(drift_samples) < 5:
-                drift_samples.append({"cfg": b["cfg"], "env": b["env"], "model": [b["outcome"], b["hist"]],
-                                      "code": [t["outcome"], dg["classes"], dg["exc"]]})
-        traces.append(t)
-        diags[t["id"]] = dg
+        record(sc, "b%d" % bi, "model-behaviour", b)
     res.coverage["behaviours_replayed"] = len(order)
     # 3b. a seed-selected subset again, through the command-line front end (argparse builds the options)
-    n_cli = ctx.pick(500, len(order))
+    n_cli = ctx.pick(400, len(order))
     for bi in order[:n_cli]:
         b = behaviours[bi]
         sc = admin_ops.scenario_from_model(b["cfg"], b["env"], ctx.rng, boundary=False)
         sc.desc["cli"] = True
-        t, dg = execute(ctx, sc, "c%d" % bi, state)
-        t["id"] = len(traces) + 1
-        dg["src"] = "model-behaviour via adm_%s.main()" % b["cfg"]["plat"]
-        if t["outcome"] != b["outcome"] or shape(dg["classes"]) != shape(b["hist"]):
-            drift += 1
-            if len(drift_samples) < 5:
-                drift_samples.append({"cfg": b["cfg"], "env": b["env"], "via": "cli",
-                                      "model": [b["outcome"], b["hist"]],
-                                      "code": [t["outcome"], dg["classes"], dg["exc"]]})
-        traces.append(t)
-        diags[t["id"]] = dg
+        record(sc, "c%d" % bi, "model-behaviour via adm_%s.main()" % b["cfg"]["plat"], b)
     res.coverage["behaviours_replayed_through_cli_main"] = n_cli
-    res.coverage["model_drift"] = drift
-    if drift_samples:
-        res.coverage["model_drift_samples"] = core._jsonable(drift_samples)
+    # 3c. PIN-decisive (single-deviation) behaviours: EVERY member of the PIN content class, everything
+    #     the behaviour did not look at set so that the command would go on; directly and (PIN given as
+    #     an option, or operations that set a PIN) through the command-line front end
+    decisive = [b for b in behaviours if admin_ops.pin_decisive(b)]
+    n_members = 0
+    for bi, b in enumerate(decisive):
+        for mi, m in enumerate(admin_ops.PIN_MEMBERS[b["env"]["pinc"]]):
+            if ctx.quick and b["cfg"]["op"] in ("unlock", "pubkeys") and (bi + mi) % 3:
+                continue        # quick tier: a rotating third of the members where no PIN is *set*
+            vias = [False]
+            if b["cfg"]["op"] in ("onboard", "changepin") and (ctx.pick(False, True) or (bi + mi) % 4 == 0):
+                vias.append(True)
+            for cli in vias:
+                sc = admin_ops.scenario_from_model(b["cfg"], b["env"], ctx.rng, member=m, favourable=True)
+                sc.desc["cli"] = cli
+                record(sc, "m%d_%d" % (bi, mi), "pin-decisive behaviour, member %d%s" % (
+                    mi, " via cli" if cli else ""), b)
+                n_members += 1
+    res.coverage["pin_decisive_behaviours"] = len(decisive)
+    res.coverage["pin_members_per_class"] = {c: len(v) for c, v in sorted(admin_ops.PIN_MEMBERS.items())}
+    res.coverage["pin_decisive_member_runs"] = n_members
+    res.coverage["model_drift"] = drift["n"]
+    if drift["samples"]:
+        res.coverage["model_drift_samples"] = core._jsonable(drift["samples"])
+    # 3d. code-point sweep: every character of U+0000..U+07FF (thorough: plus fullwidth / Indic / CJK /
+    #     mathematical samples) inside an otherwise compliant PIN whose encoding is exactly 8 bytes,
+    #     any-PIN not allowed, everything else favourable, PIN given as an option and typed at the prompt
+    sweep = admin_ops.sweep_pins(ctx.pick((1, 2), (1, 2, 3, 4)))
+    configs = ctx.pick(
+        [("changepin", "sgx", "opt", False), ("changepin", "sgx", "prompt", False),
+         ("onboard", "sgx", "opt", False), ("onboard", "ledger", "prompt", False)],
+        [(op, plat, src, cli) for op in ("onboard", "changepin") for plat in ("ledger", "sgx")
+         for src, cli in (("opt", False), ("opt", True), ("prompt", False))])
+    for (op, plat, src, cli) in configs:
+        for i, pin in enumerate(sweep):
+            sc = admin_ops.build(
+                op=op, plat=plat, any_pin=False, no_unlock=(op == "changepin"), src=src, pins=[pin],
+                outfile=(op == "onboard" and plat == "ledger"),
+                mode=("boot" if (op == "onboard" or plat == "ledger") else "signer"),
+                onb=("no" if op == "onboard" else "yes"), echo="t", answers="yes", wipe="t", unlock="t",
+                newpin="t", mode2="signer", keys="t", rng=ctx.rng, cli=cli)
+            record(sc, "s%d" % i, "code-point sweep")
+    res.coverage["code_point_sweep"] = {"pins": len(sweep), "configurations": len(configs),
+                                        "runs": len(sweep) * len(configs)}
+    # 3e. PINs from the generator (BasePin.generate_pin / FileBasedPin.new)
+    n_gen = ctx.pick(500, 20000)
+    for i in range(0, n_gen, 100):
+        t = admin_ops.run_generated(min(100, n_gen - i), ctx.scratch, "g%d" % i)
+        t["id"] = len(traces) + 1
+        traces.append(t)
+        diags[t["id"]] = {"src": "generated", "exc": None, "classes": ["generated"] * len(t["ev"]),
+                          "desc": {"op": "genpin", "plat": "-", "pins": [], "cli": False}}
+    res.coverage["generated_pins"] = n_gen
     # 4. random scenarios (binding B)
     n_rand = ctx.pick(1500, 40000)
     for i in range(n_rand):
-        sc = random_scenario(ctx.rng)
-        t, dg = execute(ctx, sc, "r%d" % i, state)
-        t["id"] = len(traces) + 1
-        dg["src"] = "random"
-        traces.append(t)
-        diags[t["id"]] = dg
+        record(random_scenario(ctx.rng), "r%d" % i, "random")
     res.coverage["random_scenarios"] = n_rand
     # 5. TLC judges every recorded execution
     payload = [{k: t[k] for k in TRACE_KEYS} for t in traces]
-    verdicts, stats = tlc.validate("TraceAdmin", "Trace_Admin.cfg", payload, shards=ctx.pick(4, 12))
+    verdicts, stats = tlc.validate("TraceAdmin", "Trace_Admin.cfg", payload, shards=ctx.pick(6, 12))
     res.checker_cmds.append("tlc -workers 1 -config Trace_Admin.cfg TraceAdmin (x%d shards)" % stats["jvms"])
     accepted = 0
     classes = set()
@@ -188,7 +236,8 @@ def run(ctx):
         v = verdicts[t["id"]]
         dg = diags[t["id"]]
         d = dg["desc"]
-        classes.add(relevant(d))
+        if d["op"] != "genpin":
+            classes.add(relevant(d))
         key = (d["op"], d["plat"], t["outcome"])
         by[key] = by.get(key, 0) + 1
         if v["ok"]:
@@ -197,8 +246,8 @@ def run(ctx):
             res.violation(signature(v["clause"], d),
                           "%s on %s violates %s at event %s: scenario %s, outcome %s (%s)" % (
                               d["op"], d["plat"], v["clause"], v.get("at"),
-                              json.dumps({k: d[k] for k in ("src", "any_pin", "no_unlock", "pins", "mode",
-                                                            "onb", "echo", "answers")}, sort_keys=True),
+                              json.dumps({k: d.get(k) for k in ("src", "any_pin", "no_unlock", "pins", "mode",
+                                                                "onb", "echo", "answers")}, sort_keys=True),
                               t["outcome"], dg["exc"]),
                           {"scenario": d, "prev_seed": t["prev_seed"], "classes": dg["classes"],
                            "outcome": t["outcome"], "exception": dg["exc"], "verdict": v})
@@ -285,6 +334,12 @@ CORRUPTIONS = (
      lambda t: t["ev"][_idx(t, "pin_byte")[-1]].update(b=33)),
     ("7-character PIN set without any-PIN", "PinPolicy", _change_ok("sgx"),
      lambda t: t["ev"][_idx(t, "change_pin")[0]]["data"].pop()),
+    ("device ends up holding a 7-character PIN without any-PIN", "PinPolicy", _change_ok("ledger"),
+     lambda t: t["fin_pin"].pop()),
+    ("device ends up holding a PIN with a Latin-1 letter byte", "PinPolicy", _change_ok("sgx"),
+     lambda t: t["fin_pin"].__setitem__(3, 0xFC)),
+    ("generated PIN without a letter", "PinPolicy", lambda t: t["op"] == "genpin",
+     lambda t: t["ev"][0].update(data=[0x31] * 8)),
     ("preconditions held but the command failed", "Carried", _onb_ok,
      lambda t: t.update(outcome="err")),
     ("a documented path never asked", "Carried", _pubkeys_ok,
